@@ -816,6 +816,16 @@ func (x *Exec) trCall(e *Expr, env *Env) (Term, error) {
 				return tBool(ok), nil
 			}
 			return val, nil
+		case "urlParses":
+			args, err := trArgs()
+			if err != nil {
+				return Term{}, err
+			}
+			if len(args) != 1 || args[0].Sort != SStr {
+				return Term{}, fmt.Errorf("urlParses(s) needs a string")
+			}
+			x.vc.declFun("uf_url_parses", []string{SStr}, SBool)
+			return tBool(app("uf_url_parses", args[0].S)), nil
 		case "reMatch", "rePattern", "reCompiles":
 			args, err := trArgs()
 			if err != nil {
